@@ -6,6 +6,46 @@ from lib.taint import Taint
 RULE = "shared::rule::Rule"
 
 
+def _binding_part(b, op, param, depth=0):
+    """'key' / 'value' / 'pair' if the operand is (derived from) an entry of the map passed as parameter `param`"""
+    if depth > 8:
+        return None
+    o = b.origin(op, stop_named=False)
+    if o[0] == "call":
+        c = o[1]
+        if c.name() in ("clone", "deref", "borrow", "as_ref", "to_owned", "to_string", "cloned", "copied") and c.args:
+            return _binding_part(b, c.args[0], param, depth + 1)
+        if c.name() in ("keys", "into_keys") and c.args and b.alias_root(c.args[0]) == param:
+            return "key"
+        if c.name() in ("values", "into_values") and c.args and b.alias_root(c.args[0]) == param:
+            return "value"
+        if c.name() in ("iter", "into_iter") and c.args and b.alias_root(c.args[0]) == param:
+            return "pair"
+        if c.name() == "next" and c.args:
+            return _binding_part(b, c.args[0], param, depth + 1)
+        return None
+    if o[0] != "place":
+        return None
+    pl = o[1]
+    idx = [e.get("i") for e in pl["p"] if e["k"] == "field"]
+    root = pl["l"]
+    if root == param and not idx:
+        return "pair"
+    d = b.single_def(root)
+    src = None
+    if d and d[0] == "call":
+        src = _binding_part(b, {"k": "copy", "pl": {"l": root, "p": [], "t": ""}}, param, depth + 1) if d[2].name() != "next" else (
+            _binding_part(b, d[2].args[0], param, depth + 1) if d[2].args else None)
+    elif d and d[0] == "assign" and d[3]["rv"] in ("use", "ref"):
+        inner = d[3].get("op") or {"k": "copy", "pl": d[3]["pl"]}
+        src = _binding_part(b, inner, param, depth + 1)
+    if src == "pair" and len(idx) >= 2:
+        return "key" if idx[-1] == 0 else "value"
+    if src in ("key", "value"):
+        return src
+    return src
+
+
 def run(R):
     prog = R.prog
     R.rule("C18-R1", "renaming apart depends on the goal: the generator of fresh rule-variable names receives data derived "
@@ -30,6 +70,32 @@ def run(R):
         R.ob("C18-R1", "fresh-depends-on-goal", "the renaming call receives data derived from the goal and the bindings "
              "(receives: %s)" % sorted(labels), ok, where=helper.where(c.ln),
              detail=None if ok else "generated names are a function of a counter only: a goal that already uses such a name is captured")
+    # what the avoided set is built from: the goal's variables, the bound names AND the variables inside the bound values
+    # (head unification binds rule variable -> goal variable, so below depth 0 the caller's unbound variables live in values only)
+    for n, c in enumerate(calls):
+        if len(c.args) < 3:
+            continue
+        rl = helper.alias_root(c.args[2])
+        parts = set()
+        feeders = 0
+        for x in helper.calls():
+            if x is c or not x.args:
+                continue
+            roots = [helper.alias_root(a) for a in x.args]
+            if rl not in roots:
+                continue
+            feeders += 1
+            for a in x.args:
+                if helper.alias_root(a) == rl:
+                    continue
+                part = _binding_part(helper, a, 3)
+                if part:
+                    parts.add(part)
+        ok = "value" in parts and "key" in parts
+        R.ob("C18-R1", "avoids-binding-values", "the names to avoid include the bound names and the variables inside the bound values "
+             "(fed from binding %s; %d feeding calls)" % (sorted(parts), feeders), ok, where=helper.where(c.ln),
+             detail=None if ok else "a caller's still-unbound goal variable that occurs only inside a binding value can be handed out "
+             "as a fresh name; solving the inner premise then binds it and entailed answers are lost")
     # inside the generator: every freshly generated name is checked against the avoided names before use
     fam = [prog.bodies[k] for k in prog.reachable([ren.key]) if k in prog.bodies and prog.bodies[k].crate == "datalog"]
     gens = []
